@@ -5,6 +5,7 @@ import (
 	"strings"
 	"testing"
 
+	rio "github.com/pip-services3-gox/pip-services3-expressions-gox/io"
 	"github.com/pip-services3-gox/pip-services3-expressions-gox/tokenizers"
 	"pgregory.net/rapid"
 	"verif/pbt/evid"
@@ -107,6 +108,32 @@ func checkC04With(t tokenizers.ITokenizer, c c04Case) *evid.Fail {
 	}
 	if tksString(buf) != tksString(toks) {
 		return evid.F("tokenizebuffer-differs", "TokenizeBuffer %s vs NextToken loop %s", tksString(buf), tksString(toks))
+	}
+	// the remaining entry points (for every short input and a deterministic eighth of the longer ones)
+	if n := len(c.Input); n > 6 && (n+int(c.Input[0])+int(c.Input[n-1]))%8 != 0 {
+		return nil
+	}
+	var strs, strs2 []string
+	var stream []tk
+	if f := guard(func() {
+		strs = t.TokenizeBufferToStrings(c.Input)
+		strs2 = t.TokenizeStreamToStrings(rio.NewStringScanner(c.Input))
+		for _, x := range t.TokenizeStream(rio.NewStringScanner(c.Input)) {
+			stream = append(stream, tk{x.Type(), x.Value(), x.Line(), x.Column()})
+		}
+	}); f != nil {
+		return f
+	}
+	if strings.Join(strs, "\x00") != sb.String()+"" && strings.Join(strs, "") != want {
+		return evid.F("tokenizebuffertostrings-differs", "TokenizeBufferToStrings(%q) = %q", c.Input, strs)
+	}
+	if len(strs) != len(toks) || len(strs2) != len(toks) || tksString(stream) != tksString(toks) {
+		return evid.F("entry-points-differ", "input %q: NextToken loop %s ; TokenizeStream %s ; ToStrings %q / %q", c.Input, tksString(toks), tksString(stream), strs, strs2)
+	}
+	for i := range toks {
+		if strs[i] != toks[i].V || strs2[i] != toks[i].V {
+			return evid.F("entry-points-differ", "input %q: token %d is %q, the string entry points give %q / %q", c.Input, i, toks[i].V, strs[i], strs2[i])
+		}
 	}
 	return nil
 }
